@@ -90,7 +90,13 @@ def run_case(case):
     tkw = case.get('trainer_kw') or {}
     if tkw:
         fp += f';trainer={tkw}'
-    model, exc = call(ml.fit, kind, data, init, case['iterations'], {}, ml.trainer_for(kind, **tkw) if tkw else None)
+    trainer = ml.trainer_for(kind, **tkw)
+    if case['seed'] % 2:
+        # history: the same trainer object has completed another fit (several iterations, blurred start) before
+        init0 = 0.6 * onehot + 0.4 / K
+        call(ml.fit, kind, data, init0, 3, {}, trainer)
+        fp += ';reused'
+    model, exc = call(ml.fit, kind, data, init, case['iterations'], {}, trainer)
     if model is None:
         return [dict(kind='fixedpoint', exc=exc, fp=fp, key=key)]
     post, e2 = call(ml.predict, kind, model, data)
